@@ -51,9 +51,10 @@ def r1(fx):
         yield ob(f'{w}: row source', b is not None, c, got=ast.unparse(c), want=p)
         # no reassignment of scale/border between the header computation and the row source other than normalisation
     png = fx.fn('writers', 'write_png')
-    srcs = [ast.unparse(s.value) for s in src.statements(png.body) if isinstance(s, ast.Assign) and ast.unparse(s.targets[0]) == 'miter']
-    yield ob('write_png: rows are the matrix itself (border/scale added by the writer)', srcs[:2] == ['matrix_iter_verbose(matrix, matrix_size, scale=1, border=0)', 'iter(matrix)'],
-             png, got=srcs[:2], want=['matrix_iter_verbose(matrix, matrix_size, scale=1, border=0)', 'iter(matrix)'])
+    srcs = sorted(ast.unparse(c) for c in src.calls_in(png, into_nested=False) if src.call_name(c) in ('matrix_iter', 'matrix_iter_verbose', 'iter', 'matrix_to_lines')
+                  and any(isinstance(n, ast.Name) and n.id == 'matrix' for n in ast.walk(c)))
+    yield ob('write_png: rows are the matrix itself (border/scale added by the writer)', srcs == ['iter(matrix)', 'matrix_iter_verbose(matrix, matrix_size, scale=1, border=0)'],
+             png, got=srcs, want=['iter(matrix)', 'matrix_iter_verbose(matrix, matrix_size, scale=1, border=0)'])
 
 
 @rule('C09', 'R2', 6, 'fractional scale is truncated with int() before the header dimensions are computed')
@@ -64,7 +65,8 @@ def r2(fx):
         c = single(calls, f'_valid_width_height_and_border in {w}')
         b = pat.need(c, '_valid_width_height_and_border(matrix_size, H_s, H_b)', f'size computation of {w}')
         st = nf.enclosing_stmt(c)
-        okt = pat.match(st, 'width, height, border = _valid_width_height_and_border(matrix_size, scale, border)', mode='stmt') is not None
+        okt = isinstance(st, ast.Assign) and isinstance(st.targets[0], ast.Tuple) and len(st.targets[0].elts) == 3 \
+            and pat.match(st.value, '_valid_width_height_and_border(matrix_size, scale, border)') is not None
         doms = nf.dominators(c, fn, lambda s: pat.match(s, 'scale = int(scale)', mode='stmt') is not None)
         later = [s for s in fn.body[fn.body.index(st) + 1:] if any(isinstance(n, ast.Name) and n.id == 'scale' and isinstance(n.ctx, ast.Store) for n in ast.walk(s))]
         yield ob(f'{w}: scale = int(scale) dominates the size computation', bool(doms) and okt and not later, c,
@@ -123,7 +125,7 @@ def r4(fx):
                 bad.append((n, grey, d))
     yield ob('bit depth holds every palette index: colours <= 2^depth for 1..16 colours', not bad, dec, got=bad, want=[])
     ct = single([s for s in fn.body if isinstance(s, ast.Assign) and ast.unparse(s.targets[0]) == 'png_color_type'], 'colour type')
-    yield ob('colour type 0 (greyscale) / 3 (palette)', nf.norm(ct.value) == '0 if is_greyscale else 3', ct, got=ast.unparse(ct.value), want='0 if is_greyscale else 3')
+    yield ob('colour type 0 (greyscale) / 3 (palette)', nf.same(ct.value, '0 if is_greyscale else 3'), ct, got=ast.unparse(ct.value), want='0 if is_greyscale else 3')
     # scanline
     sl_fn = fx.fn('writers', 'write_png.scanline')
     bad = []
@@ -158,12 +160,12 @@ def r4(fx):
     for name, want in checks:
         cands = [s for s in src.statements(fn.body) if isinstance(s, ast.Assign) and ast.unparse(s.targets[0]) == name and not isinstance(s.value, ast.Constant)]
         s = single(cands, f'{name} in write_png')
-        yield ob(f'write_png: {name}', nf.norm(s.value) == nf.norm(ast.parse(want, mode='eval').body), s, got=ast.unparse(s.value), want=want)
+        yield ob(f'write_png: {name}', nf.same(s.value, want), s, got=ast.unparse(s.value), want=want)
     rep = [s for s in src.statements(fn.body) if isinstance(s, ast.Assign) and ast.unparse(s.targets[0]) == 'miter' and 'repeat(b, scale)' in ast.unparse(s.value)]
     s = single(rep, 'horizontal repetition in write_png')
     g = nf.guard_text(nf.guards_of(s, fn))
     yield ob('each sample repeated `scale` times when scale > 1', nf.norm(s.value) == nf.norm(ast.parse('(chain(*(repeat(b, scale) for b in row)) for row in miter)', mode='eval').body)
-             and g == 'scale > 1', s, got=f'{ast.unparse(s.value)} if {g}', want='(chain(*(repeat(b, scale) for b in row)) for row in miter) if scale > 1')
+             and nf.guard_is(nf.guards_of(s, fn), 'scale > 1'), s, got=f'{ast.unparse(s.value)} if {g}', want='(chain(*(repeat(b, scale) for b in row)) for row in miter) if scale > 1')
     loop = single([s for s in fn.body if isinstance(s, ast.For) and ast.unparse(s.iter) == 'miter'], 'row loop of write_png')
     body = [ast.unparse(x) for x in loop.body]
     yield ob('each row: scanline(border + row + border) followed by the repeated-row filter lines', body == ['idat += scanline(chain(vertical_border, row, vertical_border))', 'idat += same_as_above'],
@@ -243,27 +245,53 @@ def r6(fx):
     xpm = fx.fn('writers', 'write_xpm')
     tok = [n for n in ast.walk(xpm) if isinstance(n, ast.IfExp) and 'X' in ast.unparse(n) and isinstance(n.body, ast.Constant) and n.body.value in (' ', 'X')]
     t = single(tok, 'XPM pixel token')
-    yield ob('XPM: 0 -> " " (light colour line), 1 -> "X" (dark colour line)', _tok(t, 'b') == [' ', 'X'], t, got=_tok(t, 'b'), want=[' ', 'X'])
-    sc = {ast.unparse(s.targets[0]): ast.unparse(s.value) for s in xpm.body if isinstance(s, ast.Assign)}
-    yield ob('XPM: X = dark, blank = light', sc.get('stroke_color', '').startswith('color_to_rgb_hex(dark)') and sc.get('bg_color', '').startswith('color_to_rgb_hex(light)'),
-             xpm, got=sc, want='stroke_color <- dark, bg_color <- light')
+    tv = [n.id for n in ast.walk(t.test) if isinstance(n, ast.Name)]
+    need(len(set(tv)) == 1, 'XPM pixel token: one variable expected')
+    yield ob('XPM: 0 -> " " (light colour line), 1 -> "X" (dark colour line)', _tok(t, tv[0]) == [' ', 'X'], t, got=_tok(t, tv[0]), want=[' ', 'X'])
+    hdr_parts = [v for n in ast.walk(xpm) if isinstance(n, ast.JoinedStr) for v in n.values]
+    def _after(prefix):
+        for i, v in enumerate(hdr_parts):
+            if isinstance(v, ast.Constant) and isinstance(v.value, str) and v.value.endswith(prefix) and i + 1 < len(hdr_parts) \
+                    and isinstance(hdr_parts[i + 1], ast.FormattedValue):
+                return hdr_parts[i + 1].value
+        return None
+    xd, xl = _after('"X c '), _after('"  c ')
+    need(xd is not None and xl is not None, 'XPM colour lines not found')
+    yield ob('XPM: X = dark, blank = light', nf.same_inlined(xpm, xd, "color_to_rgb_hex(dark) if dark is not None else 'None'")
+             and nf.same_inlined(xpm, xl, "color_to_rgb_hex(light) if light is not None else 'None'"), xpm,
+             got=(ast.unparse(nf.inline(xpm, xd)), ast.unparse(nf.inline(xpm, xl))), want='X <- dark, blank <- light')
     txt = fx.fn('writers', 'write_txt')
-    c = single([s for s in txt.body if isinstance(s, ast.Assign) and ast.unparse(s.targets[0]) == 'colours'], 'TXT colours')
-    j = [n for n in ast.walk(txt) if isinstance(n, ast.GeneratorExp) and 'colours[' in ast.unparse(n)]
-    yield ob('TXT: (light, dark)[bit], one character per cell, newline per row', nf.norm(c.value) == '(str(light), str(dark))' and len(j) == 1
-             and ast.unparse(j[0]) == '(colours[i] for i in row)', c, got=ast.unparse(c.value), want='(str(light), str(dark))')
+    j = [n for n in ast.walk(txt) if isinstance(n, ast.GeneratorExp) and pat.match(n, '(H_c[H_v] for H_v in H_r)') is not None]
+    need(len(j) == 1, 'TXT: per-cell character lookup not found')
+    cexpr = pat.match(j[0], '(H_c[H_v] for H_v in H_r)')['c']
+    yield ob('TXT: (light, dark)[bit], one character per cell, newline per row', nf.same_inlined(txt, cexpr, '(str(light), str(dark))'), j[0],
+             got=ast.unparse(nf.inline(txt, cexpr)), want='(str(light), str(dark))')
     pam = fx.fn('writers', 'write_pam')
     inv = fx.fn('writers', 'write_pam.invert_row_bits')
     r = single([s for s in inv.body if isinstance(s, ast.Return)], 'return of invert_row_bits')
     got = list(ev.ev(r.value, {'row': [0, 1, 1, 0]}))
     yield ob('PAM BLACKANDWHITE: 1 (dark) -> sample 0 (black)', got == [1, 0, 0, 1], r, got=got, want=[1, 0, 0, 1])
-    cols = [s for s in src.statements(pam.body) if isinstance(s, ast.Assign) and ast.unparse(s.targets[0]) == 'colours' and not isinstance(s.value, ast.Constant)]
-    texts = sorted(ast.unparse(s.value) for s in cols)
-    yield ob('PAM colour tuples are (light, dark) indexed by the bit', texts == ["(b'\\x01\\x00', b'\\x00\\x01')", '(pack(fmt, *bg_color), pack(fmt, *stroke_color))'], pam,
-             got=texts, want=["(b'\\x01\\x00', b'\\x00\\x01')", '(pack(fmt, *bg_color), pack(fmt, *stroke_color))'])
+    cols = [s for s in src.statements(pam.body) if isinstance(s, ast.Assign) and isinstance(s.value, ast.Tuple) and len(s.value.elts) == 2
+            and isinstance(s.targets[0], ast.Name) and (pat.match(s.value, '(pack(H_f, *H_a), pack(H_f, *H_b))') is not None
+                                                        or all(isinstance(e, ast.Constant) and isinstance(e.value, bytes) for e in s.value.elts))]
+    need(len(cols) == 2, 'write_pam: the two colour tuples')
+    okc = True
+    detail = []
+    sc = [s for s in pam.body if isinstance(s, ast.Assign) and pat.match(s.value, '_color_to_rgb_or_rgba(dark, alpha_float=False)') is not None]
+    need(len(sc) == 1, 'write_pam: stroke colour')
+    stroke_name = ast.unparse(sc[0].targets[0])
+    for s_ in cols:
+        b_ = pat.match(s_.value, '(pack(H_f, *H_a), pack(H_f, *H_b))')
+        if b_ is None:
+            okc &= ev.ev(s_.value, {}) == (b'\x01\x00', b'\x00\x01')
+            detail.append(ast.unparse(s_.value))
+        else:
+            okc &= ast.unparse(b_['b']) == stroke_name and ast.unparse(b_['a']) != stroke_name
+            detail.append(f'(light: {ast.unparse(b_["a"])}, dark: {ast.unparse(b_["b"])})')
+    yield ob('PAM colour tuples are (light, dark) indexed by the bit', okc, pam, got=detail, want="(b'\\x01\\x00', b'\\x00\\x01'); (pack(bg), pack(stroke))")
     rc = fx.fn('writers', 'write_pam.row_to_color_values')
     rr = single([s for s in rc.body if isinstance(s, ast.Return)], 'return of row_to_color_values')
-    yield ob('PAM colour rows: colours[bit] per pixel', pat.match(rr.value, "b''.join(colours[b] for b in row)") is not None, rr, got=ast.unparse(rr.value),
+    yield ob('PAM colour rows: colours[bit] per pixel', pat.match(rr.value, "b''.join(colours[H_v] for H_v in row)") is not None, rr, got=ast.unparse(rr.value),
              want="b''.join(colours[b] for b in row)")
     term = fx.fn('writers', 'write_terminal')
     tc = single([s for s in src.statements(term.body) if isinstance(s, ast.Assign) and ast.unparse(s.targets[0]) == 'colours'], 'terminal colours')
